@@ -683,7 +683,7 @@ def valid_cheap(st, goal, timeout=2000):
     "validity from the linear, quantifier-free part of the path condition only (sound: fewer premises)"
     from .symex import is_cheap
     s = z3.Solver()
-    s.set('timeout', timeout)
+    set_budget(s, timeout)
     for a in st.pc:
         if is_cheap(a):
             s.add(a)
@@ -719,7 +719,7 @@ def _simplified(a):
 def valid(asm, goal, timeout=3000):
     for ematch in (True, False):
         s = z3.Solver()
-        s.set('timeout', timeout)
+        set_budget(s, timeout)
         if ematch:
             s.set('smt.mbqi', False)
         for a in asm:
@@ -795,7 +795,7 @@ def model_value(st, term):
     "a value of term in some model of the cheap part of the path condition (a *candidate*, to be validated)"
     from .symex import is_cheap
     s = z3.Solver()
-    s.set('timeout', 1000)
+    set_budget(s, 1000)
     for a in st.pc:
         if is_cheap(a):
             s.add(a)
@@ -941,7 +941,7 @@ def cut_loop(C, kind, s, st, fr, L=None):
     if hk:
         cands += hk(C, kind, s, L, W, pre, fr, i)
     # ---- 3. Houdini over auto candidates (user invariants are assumed and checked as obligations)
-    alive = list(cands)
+    alive = list(cands) if not _os.environ.get('PYVC_NO_HOUDINI') else []
     alive = [(lab, f) for lab, f in alive if _holds_init(C, pre, f, lab.startswith('Q:'))]
     for _round in range(6):
         if not alive:
